@@ -495,6 +495,40 @@ def run_schema_extends(ctx, i, dirpath):
     merged["types"] = [t for p in parts for t in p["types"]]
     merged["children"] = [c for p in parts for c in p["children"]]
     x2 = family.render_xml(merged)
+    if mode != "conflict" and rng.random() < 0.3:
+        # one base is broken at first (not well-formed, naming a type
+        # nobody defines, defining a type twice, or missing) - the schema
+        # is refused - and repaired afterwards: the schema must then equal
+        # its expansion as if nothing had happened
+        victim = os.path.join(dirpath, rng.choice(names))
+        good = open(victim).read()
+        how = rng.choice(["truncated", "unknown-type", "twice", "missing"])
+        if how == "missing":
+            os.remove(victim)
+        else:
+            with open(victim, "w") as f:
+                f.write({"truncated": good[:max(8, len(good) // 2)],
+                         "unknown-type": good.replace(
+                             "</schema>", "<section type='zcv-nosuch' "
+                             "name='zcvx'/></schema>"),
+                         "twice": good.replace(
+                             "</schema>", "<sectiontype name='zcv-tw'/>"
+                             "<sectiontype name='zcv-tw'/></schema>"),
+                         }[how])
+        sb, eb = load_schema_path(main)
+        ctx.res.count("base_broken_then_repaired")
+        # (how the refusal is reported is not this property's subject:
+        # a document that is not well-formed ends in the XML parser's own
+        # exception on the pinned tree)
+        if sb is not None:
+            ctx.res.evaluations += 1
+            ctx.res.violate("broken-base-not-refused",
+                            {"family": "schema_extends", "how": how,
+                             "mode": mode}, "refused",
+                            eb or "loads", detail="%s %s" % (how, eb),
+                            vsig="brokenbase|%s|%s" % (how, eb and eb[0]))
+        with open(victim, "w") as f:
+            f.write(good)
     s1, e1 = load_schema_path(main)
     case = {"family": "schema_extends", "mode": mode,
             "files": {n: open(os.path.join(dirpath, n)).read()
